@@ -352,6 +352,10 @@ pub enum ExtStyle {
     Compliant,
     /// Legacy: length attribute zero, original datagram padded to exactly 128 octets.
     Legacy,
+    /// Seen in the field and handled by trippy explicitly: the original datagram field is padded
+    /// to 128 octets but the length attribute describes the datagram itself (rounded up to the
+    /// unit), so the receiver trims the padding.  Same as `Compliant` from 128 octets upward.
+    ShortLength,
 }
 
 /// Build the body (after the 8-octet ICMP header) and the length attribute of an ICMP error
@@ -378,6 +382,16 @@ pub fn build_error_body(
                     }
                     body.resize(l, 0);
                     let words = (l / unit) as u8;
+                    body.extend_from_slice(ext_bytes);
+                    (body, words)
+                }
+                ExtStyle::ShortLength => {
+                    let mut l = body.len();
+                    if l % unit != 0 {
+                        l += unit - l % unit;
+                    }
+                    let words = (l / unit) as u8;
+                    body.resize(l.max(128), 0);
                     body.extend_from_slice(ext_bytes);
                     (body, words)
                 }
